@@ -1011,7 +1011,7 @@ class Engine:
                 self.copy_object(s, target, v)
                 self.emit(s, "STORE", target, v, loc=ie.get("loc"), extra={"rec": True, "init": True})
             else:
-                self.store(s, target, v, loc=ie.get("loc"))
+                self.store(s, target, v, loc=ie.get("loc"), ty=it)
                 s.events[-1].extra["init"] = True
             outs.append(s)
         return outs
